@@ -267,7 +267,8 @@ class DoubleEvent:
         x_adjusted = self.x
         if (isinstance(self.y, DiscreteRandomVariable)
                 and self.op1 == ComparisonOp.LEQ):
-            x_adjusted -= 1
+            # x <= Y excludes the integers up to ceil(x)-1.
+            x_adjusted = math.ceil(self.x) - 1
         p1 = eval_probability(ComparisonOp.LEQ, self.y, x_adjusted)
         p2 = eval_probability(self.op2, self.y, self.z)
         return max(p2 - p1, 0)
@@ -280,18 +281,25 @@ def eval_probability(op, left, right):
     # an off-by-1 error somewhere.
     if op == ComparisonOp.EQ:
         return left.pmf(right)
+    # A discrete variable takes integer values only, so a threshold t that
+    # isn't an integer is moved to the nearest integer on the proper side:
+    # X <= t iff X <= floor(t), and X < t iff X <= ceil(t)-1.
     if op == ComparisonOp.LEQ:
+        if isinstance(left, DiscreteRandomVariable):
+            return left.cdf(math.floor(right))
         if isinstance(left, RandomVariable):
             return left.cdf(right)
         if isinstance(right, DiscreteRandomVariable):
-            return 1 - right.cdf(left-1)
+            return 1 - right.cdf(math.ceil(left)-1)
         if isinstance(right, RandomVariable):
             return 1 - right.cdf(left)
     if op == ComparisonOp.LT:
         if isinstance(left, DiscreteRandomVariable):
-            return left.cdf(right-1)
+            return left.cdf(math.ceil(right)-1)
         if isinstance(left, RandomVariable):
             return left.cdf(right)
+        if isinstance(right, DiscreteRandomVariable):
+            return 1 - right.cdf(math.floor(left))
         if isinstance(right, RandomVariable):
             return 1 - right.cdf(left)
     raise Exception("Dunno how to evaluate the probability of this event! (This is a bug).")
